@@ -254,8 +254,8 @@ def m3_table(ctx):
                 ctx.finding('M3', 'call-site/on_left/%s' % fn_key(caller.path), 'DataItem::calculate is called with on_left = %s' % a, site=t['loc'])
             else:
                 ctx.ok('M3', 'calculate(.., on_left = true, ..) in %s' % fn_key(caller.path), 'const', site=t['loc'], sample=False)
-    if n < 4:
-        raise AnchorLost('expected >= 4 call sites of DataItem::calculate, found %d' % n)
+    if n < 1:
+        raise AnchorLost('no call site of DataItem::calculate found')
 
 
 def m4_literals(ctx):
